@@ -1,6 +1,9 @@
 import ZvbiModel.Demux.LemmasFeed
 /-!
 # A full line buffer is an absorbing state of the unchanged PES path  (finding C07-pes-lockup)
+
+All of this is about the source before fix dvb-demux-full-frame (`cfg.lateOverflow = false`): with the
+overflow test behind the new-frame tests a full buffer is no longer deaf (`lineAddress_full_closes`).
 -/
 namespace Zvbi.Demux
 
@@ -8,9 +11,32 @@ variable {cfg : SrcCfg}
 
 def Full (f : Frame) : Prop := f.lines.length ≥ N_SLICED
 
-theorem lineAddress_full (f : Frame) (lofp : Nat) (sys : Bool) (h : Full f) : lineAddress f lofp sys = .err := by
+/-- while the overflow test is the first statement of `line_address`, a full buffer answers every unit
+with the error - also the unit that would have closed the frame (finding C07-full-frame) -/
+theorem lineAddress_full (hlo : cfg.lateOverflow = false) (f : Frame) (lofp : Nat) (sys : Bool) (h : Full f) :
+    lineAddress cfg f lofp sys = .err := by
   unfold lineAddress
-  rw [if_pos (show f.lines.length ≥ N_SLICED from h)]
+  rw [if_pos ⟨hlo, h⟩]
+
+/-- in either shape a full buffer never yields a slot: the result is the error or "new frame" -/
+theorem lineAddress_full_no_slot (f : Frame) (lofp : Nat) (sys : Bool) (h : Full f) :
+    ∀ f' line, lineAddress cfg f lofp sys ≠ .ok f' line := by
+  intro f' line
+  have h' : f.lines.length ≥ N_SLICED := h
+  unfold lineAddress
+  simp only [h', and_true, if_true]
+  repeat' split
+  all_goals (intro hc; cases hc)
+
+/-- with the overflow test behind the new-frame tests (fix dvb-demux-full-frame) a full buffer is closed
+by exactly the units that close a buffer with room: the first unit of a packet whose defined line is not
+beyond the last line of the frame -/
+theorem lineAddress_full_closes (hlo : cfg.lateOverflow = true) (f : Frame) (lofp : Nat) (sys : Bool)
+    (hl : (lofpToLine lofp sys).2.2 ≠ 0) (hle : (lofpToLine lofp sys).2.2 ≤ f.lastFrameLine) (hn : f.nDu = 0) :
+    lineAddress cfg f lofp sys = .newFrame := by
+  unfold lineAddress
+  rw [if_neg (by simp [hlo])]
+  simp only [hl, ne_eq, not_false_eq_true, if_true, hle, hn, gt_iff_lt, Nat.lt_irrefl, if_false]
 
 /-- with a full buffer a data unit is skipped or fails without touching the frame, never "new frame" -/
 def FullDU (f : Frame) : DU → Prop
@@ -18,8 +44,8 @@ def FullDU (f : Frame) : DU → Prop
   | .store _ => False
   | .fail f' r => f' = f ∧ r ≠ .newFrame
 
-theorem dataUnit_full (f : Frame) (d : Bytes) (id len : Nat) (h : Full f) : FullDU f (dataUnit f d id len) := by
-  have hla := fun lofp sys => lineAddress_full f lofp sys h
+theorem dataUnit_full (hlo : cfg.lateOverflow = false) (f : Frame) (d : Bytes) (id len : Nat) (h : Full f) : FullDU f (dataUnit cfg f d id len) := by
+  have hla := fun lofp sys => lineAddress_full (cfg := cfg) hlo f lofp sys h
   unfold dataUnit
   simp only [hla]
   repeat' split
@@ -27,8 +53,8 @@ theorem dataUnit_full (f : Frame) (d : Bytes) (id len : Nat) (h : Full f) : Full
     | trivial
     | exact ⟨rfl, by simp⟩
 
-theorem extractLoop_full : ∀ (fuel : Nat) (f : Frame) (d : Bytes), Full f →
-    (extractLoop fuel f d).1.lines = f.lines ∧ (extractLoop fuel f d).2.1 ≠ .newFrame := by
+theorem extractLoop_full (hlo : cfg.lateOverflow = false) : ∀ (fuel : Nat) (f : Frame) (d : Bytes), Full f →
+    (extractLoop cfg fuel f d).1.lines = f.lines ∧ (extractLoop cfg fuel f d).2.1 ≠ .newFrame := by
   intro fuel
   induction fuel with
   | zero => intro f d _; simp [extractLoop]
@@ -45,8 +71,8 @@ theorem extractLoop_full : ∀ (fuel : Nat) (f : Frame) (d : Bytes), Full f →
         by_cases hl : len + 2 > (id :: len :: t).length
         · rw [if_pos hl]; simp
         · rw [if_neg hl]
-          have hdu := dataUnit_full f (id :: len :: t) id len h
-          cases hx : dataUnit f (id :: len :: t) id len with
+          have hdu := dataUnit_full (cfg := cfg) hlo f (id :: len :: t) id len h
+          cases hx : dataUnit cfg f (id :: len :: t) id len with
           | skip =>
             simp only []
             exact ih { f with lastDuId := id } _ h
@@ -56,24 +82,24 @@ theorem extractLoop_full : ∀ (fuel : Nat) (f : Frame) (d : Bytes), Full f →
             simp only []
             exact ⟨by rw [hdu.1], hdu.2⟩
 
-theorem extract_full (f : Frame) (d : Bytes) (h : Full f) :
-    (extract f d).1.lines = f.lines ∧ (extract f d).2.1 ≠ .newFrame := by
+theorem extract_full (hlo : cfg.lateOverflow = false) (f : Frame) (d : Bytes) (h : Full f) :
+    (extract cfg f d).1.lines = f.lines ∧ (extract cfg f d).2.1 ≠ .newFrame := by
   unfold extract
   split
   · simp
-  · exact extractLoop_full _ f d h
+  · exact extractLoop_full hlo _ f d h
 
 /-- properties of the frame state that make the PES demux deaf -/
 def Deaf (fs : FS) : Prop := Full fs.frame ∧ fs.newFrame = false
 
-theorem pesPacketFrame_deaf (fuel : Nat) (cb se : Bool) (fs : FS) (d : Bytes) (h : Deaf fs) :
-    (pesPacketFrame (fuel + 1) cb se fs d).2.1 = [] ∧ Deaf (pesPacketFrame (fuel + 1) cb se fs d).1 ∧
-    (pesPacketFrame (fuel + 1) cb se fs d).2.2.1 ≠ .callback := by
+theorem pesPacketFrame_deaf (hlo : cfg.lateOverflow = false) (fuel : Nat) (cb se : Bool) (fs : FS) (d : Bytes) (h : Deaf fs) :
+    (pesPacketFrame cfg (fuel + 1) cb se fs d).2.1 = [] ∧ Deaf (pesPacketFrame cfg (fuel + 1) cb se fs d).1 ∧
+    (pesPacketFrame cfg (fuel + 1) cb se fs d).2.2.1 ≠ .callback := by
   obtain ⟨hf, hn⟩ := h
   unfold pesPacketFrame
   simp only [hn, Bool.false_eq_true, if_false]
-  have hx := extract_full fs.frame d hf
-  rcases he : extract fs.frame d with ⟨f, r, rest⟩
+  have hx := extract_full (cfg := cfg) hlo fs.frame d hf
+  rcases he : extract cfg fs.frame d with ⟨f, r, rest⟩
   rw [he] at hx
   simp only at hx
   have hfull : Full f := by unfold Full; rw [hx.1]; exact hf
@@ -91,7 +117,7 @@ theorem validHeader_deaf (fs fs' : FS) (h : Bytes) (hd : Deaf fs) (hv : validHea
     | (cases hv; done)
     | (cases hv; exact hd)
 
-theorem pesIter_deaf (hflag : cfg.pesDiscards = false) (sk la : Nat) (fs : FS) (win : Bytes)
+theorem pesIter_deaf (hlo : cfg.lateOverflow = false) (hflag : cfg.pesDiscards = false) (sk la : Nat) (fs : FS) (win : Bytes)
     (h : Deaf fs) :
     (pesIter true cfg sk la fs win).2.2.1 = [] ∧ Deaf (pesIter true cfg sk la fs win).2.1 := by
   unfold pesIter
@@ -100,8 +126,8 @@ theorem pesIter_deaf (hflag : cfg.pesDiscards = false) (sk la : Nat) (fs : FS) (
   · split
     · exact ⟨rfl, h⟩
     · have hd0 : Deaf { fs with frame := { fs.frame with nDu := 0 } } := h
-      have hp := pesPacketFrame_deaf 2 true cfg.corSkipsEmpty _ (win.take la) hd0
-      rcases hpp : pesPacketFrame 3 true cfg.corSkipsEmpty { fs with frame := { fs.frame with nDu := 0 } } (win.take la)
+      have hp := pesPacketFrame_deaf (cfg := cfg) hlo 2 true cfg.corSkipsEmpty _ (win.take la) hd0
+      rcases hpp : pesPacketFrame cfg 3 true cfg.corSkipsEmpty { fs with frame := { fs.frame with nDu := 0 } } (win.take la)
         with ⟨fs1, outs, r, rest⟩
       rw [hpp] at hp
       simp only at hp
@@ -131,7 +157,7 @@ theorem pesIter_deaf (hflag : cfg.pesDiscards = false) (sk la : Nat) (fs : FS) (
 
 /-- **lock-up.** On the unchanged tree a PES demux whose line buffer is full and which is not at a
 frame start delivers nothing, whatever follows. -/
-theorem arun_deaf (hflag : cfg.pesDiscards = false) (L : Bytes) :
+theorem arun_deaf (hlo : cfg.lateOverflow = false) (hflag : cfg.pesDiscards = false) (L : Bytes) :
     ∀ (c : Core), Deaf c.fs → (arun cfg c L).frames = [] ∧ Deaf (arun cfg c L).core.fs := by
   induction L with
   | nil => intro c h; exact ⟨rfl, h⟩
@@ -142,7 +168,7 @@ theorem arun_deaf (hflag : cfg.pesDiscards = false) (L : Bytes) :
     · exact ih _ h
     · split
       · exact ⟨rfl, h⟩
-      · have hm := pesIter_deaf hflag 0 c.lookahead c.fs ((x :: L).take c.lookahead) h
+      · have hm := pesIter_deaf hlo hflag 0 c.lookahead c.fs ((x :: L).take c.lookahead) h
         unfold micro
         rcases hp : pesIter true cfg 0 c.lookahead c.fs ((x :: L).take c.lookahead) with ⟨⟨sk, la⟩, fs', outs, st⟩
         rw [hp] at hm
